@@ -652,6 +652,19 @@ def c07_prediction(case, rng, kp0):
     ref = ref[:, :off + ns]
     if not close(P, ref, 1e-8):
         return False, dict(what='predict differs from retracting the lifted sample times the Koopman matrix')
+    # ---- without a delay (and without unwrapping on the way back) a one-step prediction is a function of its own sample:
+    # the prediction of a sample given alone is the row it gets inside the batch
+    if w == 1 and not unwrap:
+        Xa = np.asarray(X, dtype=float)
+        lab = Xa[-1, 0] if ep else None
+        rows = np.flatnonzero(Xa[:, 0] == lab) if ep else np.arange(Xa.shape[0])
+        Pl = P[P[:, 0] == lab] if ep else P
+        for j in sorted(set([0, len(rows) // 2, len(rows) - 1])):
+            alone = kp.predict(Xa[[rows[j]]])
+            if alone.shape != Pl[[j]].shape or not close(alone, Pl[[j]], 1e-9):
+                return False, dict(what='the one-step prediction of a sample given alone differs from its row in the prediction of '
+                                        'the whole matrix (no delay in the pipeline)', row=int(rows[j]),
+                                   alone=alone.tolist(), in_batch=Pl[[j]].tolist())
     # ---- trajectories
     x0 = pykoop.extract_initial_conditions(X, min_samples=w, n_inputs=nu, episode_feature=ep)
     u = pykoop.extract_input(X, n_inputs=nu, episode_feature=ep)
@@ -961,4 +974,44 @@ def extra_kernel_checks(rng, which):
                     bad.append(dict(what='lift_state differs from the state block of transform', estimator=name, X=X.tolist()))
         except Exception as e:  # noqa
             bad.append(dict(what=f'implementation raised {type(e).__name__}: {e}'[:400], estimator=name, X=X.tolist()))
+    return n, bad
+
+
+def c07_inplace_substage(rng):
+    """A wrapped scikit-learn transformer that works in place (copy=False, valid scikit-learn usage) must give the same
+    predictions as its copying twin: the arrays predict / predict_trajectory build while iterating are theirs alone."""
+    import sklearn.preprocessing as skp
+    bad = []
+    n = 0
+    for ep in (False, True):
+        for nu in (0, 1):
+            for with_delay in (False, True):
+                order = [0] * 8 + ([1] * 7 if ep else [])
+                X = real_data(rng, order, 2, nu, ep)
+                coef = None
+                res = {}
+                for copy in (True, False):
+                    lfs = [('s', pykoop.SkLearnLiftingFn(skp.StandardScaler(copy=copy)))]
+                    if with_delay:
+                        lfs.append(('d', pykoop.DelayLiftingFn(1, 1)))
+                    probe = pykoop.KoopmanPipeline(lifting_functions=lfs, regressor=pykoop.DataRegressor())
+                    if coef is None:
+                        probe.fit_transformers(np.array(X, copy=True), n_inputs=nu, episode_feature=ep)
+                        nso, nuo = probe.n_states_out_, probe.n_inputs_out_
+                        coef = rng.normal(size=(nso + nuo, nso)) * (0.3 / np.sqrt(nso + nuo))
+                    kp = pykoop.KoopmanPipeline(lifting_functions=lfs, regressor=pykoop.DataRegressor(coef=coef))
+                    kp.fit(np.array(X, copy=True), n_inputs=nu, episode_feature=ep)
+                    out = {}
+                    for relift in (True, False):
+                        out[('trajectory', relift)] = kp.predict_trajectory(np.array(X, copy=True), relift_state=relift)
+                    out[('predict', None)] = kp.predict(np.array(X, copy=True))
+                    res[copy] = out
+                n += 1
+                for key in res[True]:
+                    a, b = res[True][key], res[False][key]
+                    if a.shape != b.shape or not close(a, b, 1e-9):
+                        bad.append(dict(what=f'{key[0]} with a wrapped transformer that works in place (copy=False) differs from the same '
+                                             'pipeline with a copying transformer', relift_state=key[1], episode_feature=ep, n_inputs=nu,
+                                        delay_stage=with_delay, X=X.tolist(), test='inplace_substage'))
+                        break
     return n, bad
